@@ -30,6 +30,26 @@
 #define IDN_RC_INT(x) (x)
 #endif
 
+#ifdef VERIF_WRAP_IDN2
+/* Built with -Wl,--wrap=idn2_to_ascii_8z: when VERIF_IDN_FAIL=<code> is set, EVERY conversion (the library's and the driver's own
+ * reference call alike) fails with that code, optionally leaving a live output buffer (VERIF_IDN_FAIL_BUF=1). */
+int __real_idn2_to_ascii_8z(const char *input, char **output, int flags);
+int __wrap_idn2_to_ascii_8z(const char *input, char **output, int flags);
+int __wrap_idn2_to_ascii_8z(const char *input, char **output, int flags)
+{
+    static int mode = -1, code = 0, buf = 0;
+    if (mode < 0) {
+        const char *c = getenv("VERIF_IDN_FAIL"), *b = getenv("VERIF_IDN_FAIL_BUF");
+        mode = c ? 1 : 0; code = c ? atoi(c) : 0; buf = b ? atoi(b) : 0;
+    }
+    if (mode && code) {
+        if (buf && output) { char *p = malloc(24); strcpy(p, "left.over.example"); *output = p; }
+        return code;
+    }
+    return __real_idn2_to_ascii_8z(input, output, flags);
+}
+#endif
+
 static void put_result(const eav_result_t *r)
 {
     if (r == NULL) { printf("null"); return; }
